@@ -248,7 +248,8 @@ func Excluded(proto byte, t *Ty, v *Val) bool {
 	case "ptr":
 		return Excluded(proto, t, v.Elems[0])
 	}
-	nullish := func(e *Val) bool { return e.Tag == "nil" || marshalsNil(deref(e)) }
+	// (a pointer to a nil interface{} marshals like the nil it points to: `ptr nil` counts, C12_cex_ptr_nil_v2)
+	nullish := func(e *Val) bool { d := deref(e); return d.Tag == "nil" || marshalsNil(d) }
 	switch t.Name {
 	case "list", "set":
 		switch v.Tag {
